@@ -594,12 +594,16 @@ class Scene(Geometry3D):
             geometry = self.geometry[geometry_name]
             if not hasattr(geometry, "triangles"):
                 continue
-            # append the (n, 3, 3) triangles to a sequence
-            triangles.append(
-                transformations.transform_points(
-                    geometry.triangles.copy().reshape((-1, 3)), matrix=transform
-                )
+            # the (n, 3, 3) triangles moved into the scene
+            moved = transformations.transform_points(
+                geometry.triangles.copy().reshape((-1, 3)), matrix=transform
             )
+            if len(moved) > 0 and transformations.flips_winding(transform):
+                # a mirrored instance: reverse the vertex order of every triangle
+                # so they are wound as the transformed geometry would be
+                moved = moved.reshape((-1, 3, 3))[:, ::-1].reshape((-1, 3))
+            # append the triangles to a sequence
+            triangles.append(moved)
             # save the node names for each triangle
             triangles_node.append(np.tile(node_name, len(geometry.triangles)))
         # save the resulting nodes to the cache
